@@ -4,7 +4,7 @@
 package slices
 
 //@ func Copy
-//@   property C09
+//@   property C09 C02 C03 C04 C05 C06 C07 C10 C11 C13 C14 C15 C16 C18
 //@   ensures [nil_iff] (result == nil) <==> (i == nil)
 //@   ensures [len] len(result) == len(i)
 //@   ensures [elems] forall j int :: 0 <= j && j < len(i) ==> result[j] == i[j]
